@@ -111,6 +111,7 @@ def definition(case, ctx):
     _check_spectrum(ctx, "Signal.fa_spectrum", s0, f0, x, dt, N0, sumabs)
     ctx.equal(ctx.lib(lambda: sig.fa_frequencies), f0, "fa_frequencies alias")
     ctx.equal(ctx.lib(lambda: sig.fa_spectrum_abs), np.abs(s0), "fa_spectrum_abs")
+    ctx.equal(ctx.lib(lambda: cls(x, dt).fa_spectrum_abs), np.abs(s0), "fa_spectrum_abs read first on a fresh object")
     ctx.equal(ctx.lib(lambda: other.fa_spectrum), s0, "Signal vs AccSignal spectrum")
     ctx.equal(ctx.lib(lambda: other.fa_freqs), f0, "Signal vs AccSignal frequencies")
     gs, gf = ctx.lib(fr.generate_fa_spectrum, sig)
